@@ -53,13 +53,37 @@ class Trace:
         self.lost = []            # times at which an established session was lost
 
 
+class _Roles(dict):
+    """host -> role, whatever the spelling of the address"""
+
+    def __init__(self, items=()):
+        super().__init__()
+        for k, v in items:
+            self[k] = v
+
+    def __setitem__(self, k, v):
+        from vlib.simnet import canon_host
+        super().__setitem__(canon_host(k), v)
+
+    def __getitem__(self, k):
+        from vlib.simnet import canon_host
+        return super().__getitem__(canon_host(k))
+
+    def get(self, k, d=None):
+        from vlib.simnet import canon_host
+        return super().get(canon_host(k), d)
+
+
 class ReconWorld:
     def __init__(self, loop, case):
         self.loop = loop
         self.case = case
         roles = case["hosts"]                     # list of roles: "main" | "other" | "dead" | "blackhole"
         self.hosts = HOST_POOL[:len(roles)]
-        self.roles = dict(zip(self.hosts, roles))
+        if case.get("spelling") and len(self.hosts) >= 3:
+            # the stored address list spells the IPv6 address another way than the canonical one (written by another tool, edited by hand)
+            self.hosts[2] = ["fd00:0:0:0:0:0:0:7", "FD00::7", "fd00:0000::0007"][case["spelling"] % 3]
+        self.roles = _Roles(zip(self.hosts, roles))
         mains = [h for h in self.hosts if self.roles[h] in ("main", "dead", "blackhole")] or self.hosts[:1]
         others = [h for h in self.hosts if self.roles[h] == "other"]
         self.w = IpWorld(loop, hosts=tuple(self.hosts), k=case.get("k", 0), other_accessory_hosts=tuple(others))
